@@ -176,7 +176,11 @@ theorem truncated_scale_cap_counterexample :
 
 /-- What does hold: when the support is at least one unit wide, every `(loc, σ)` with `loc` in the
 support and `0 ≤ σ ≤ max − min` is feasible.  Missing for the full clause: supports narrower than 1
-(see `truncated_scale_cap_counterexample`) and `σ > max − min`. -/
+(see `truncated_scale_cap_counterexample`) and `σ > max − min`.
+Settled in `CopVerif.Props.C04b`: `truncated_generating_law_feasible` / `truncated_feasible_iff` give the
+exact (iff) feasibility criterion for every member and every support, `truncated_partial_hypothesis_sharp`
+shows the width hypothesis here is necessary, and `truncated_every_support_excludes_members_counterexample`
+that the unrestricted clause is false for every support. -/
 theorem truncated_generating_law_feasible_partial {mn mx loc σ : ℝ} (hw : 1 ≤ mx - mn)
     (hl : mn ≤ loc) (hu : loc ≤ mx) (h0 : 0 ≤ σ) (hσ : σ ≤ mx - mn) :
     InBox (truncBounds mn mx) [loc, σ] := by
